@@ -11,6 +11,8 @@ runtime checks made by mutating the source / the result and re-reading.
 """
 import os
 import sys
+from fractions import Fraction as F
+from math import gcd
 import numpy as np
 from core import cz, cn, cb, clist, copt, VERIF
 sys.path.insert(0, os.path.join(VERIF, "translator"))
@@ -34,7 +36,15 @@ RULE = ("start arrays of 1..5 rows x 1..5 small integers (rectangular and not; n
         "append and again after it, then a write into the appended row); (ii) one-row arrays built from an ndarray row "
         "with the default copy, and writes into one-row selections a[i:i+1] / a[[i]] of any array, after which the "
         "parent must be unchanged; (iii) rectangular arrays built from nested lists / flat data with lengths given as a "
-        "list, 2-D slice assignment, then row reads and a whole-row assignment.  "
+        "list, 2-D slice assignment, then row reads and a whole-row assignment; (iv) element types: arrays of bool / uint8 / "
+        "int16 / int32 / int64 / float32 / float64 (typed rows, typed flat data, nested Python lists), appends of rows given "
+        "as RaggedArray, flat-built RaggedArray, list or tuple of typed ndarrays, nested lists -- each row in its own type, "
+        "mostly one the array's type cannot hold (non-integral reals into integers, |x| >= 2^31 into int32, float64 values "
+        "that are not float32 values, integers and reals into bool), [] rows included -- and flat appends (rejected); "
+        "then every assignment form with values that NumPy's promotion of everything put in so far holds exactly, and "
+        "reads (row, element, column slice, starts, max, min).  Values are read back as exact numbers and compared with "
+        "the list-of-rows interpreter; in Coq the same history is evaluated times the common denominator of its values "
+        "(writes and reads do no arithmetic).  "
         "non-trivial := >= 2 rows, >= 3 successful writes, at least one through the row view (route A) and one through "
         "the flat data (route B); or any case of the three streams with >= 1 successful write")
 TRUSTED = ["translator/tr_ragged_ops.py (+ tr_ragged.py for the flat-offset arithmetic): the write path's structure is "
@@ -49,7 +59,10 @@ TRUSTED = ["translator/tr_ragged_ops.py (+ tr_ragged.py for the flat-offset arit
            "aliasing clauses (copy never aliases the caller's data; operators return new objects and never alter "
            "operands) are heap facts: checked at run time by mutating source / result, not proved"]
 ASSUMPTIONS = ["integer element data, every row non-empty, slice steps non-zero; values compared as integers (the dtype "
-               "of _data may drift to object after a row assignment on an equally-long array - not compared)",
+               "of _data may drift to object after a row assignment on an equally-long array - not compared); the element-type "
+               "stream (iv) has typed / real / boolean data and empty appended rows, compares exact values, not the dtype "
+               "(reported in the message only), and never assigns through __setitem__ a value that the array's promoted "
+               "type does not hold (NumPy casts such a value on assignment, as for an ndarray)",
                "never generated (model not claimed there): a RaggedArray assigned to a single integer row index, "
                "length-1 column lists broadcast against longer row lists, augmented assignment on an empty selection, "
                "operands of different total size"]
@@ -606,6 +619,127 @@ def _stream_rect(rng, maxitems):
     return {"init": init, "items": items, "stream": "rect"}
 
 
+# ----------------------------------------------------------------------------- dtype stream (round 3s)
+DT_SMALL = {"bool": [True, False], "uint8": list(range(0, 10)), "int16": list(range(-3, 10)),
+            "int32": list(range(-3, 10)), "int64": list(range(-3, 10)),
+            "float32": [k / 4 for k in range(-6, 20)], "float64": [k / 4 for k in range(-6, 20)]}
+# values that no narrower dtype of the list holds
+DT_WIDE = {"bool": [True, False], "uint8": [200, 255, 128], "int16": [300, -32768, 32767, -4],
+           "int32": [70000, 2 ** 31 - 1, -2 ** 31, -40000], "int64": [2 ** 31, 2 ** 40, -2 ** 35 + 1, 2 ** 32 + 5],
+           "float32": [0.5, 2.25, -0.75, 1.5, 2.0 ** 20 + 0.5, -0.375],
+           "float64": [0.1, 1 / 3, 1e-3, 2.0 ** 31 + 0.5, 0.2, -2.7, 1e-9, 123456.789]}
+DTS = ["bool", "uint8", "int16", "int32", "int64", "float32", "float64"]
+
+
+def _dt_pick(rng, dt, wide=0.5):
+    return rng.choice(DT_WIDE[dt] if rng.random() < wide else DT_SMALL[dt])
+
+
+def _map_val(v, f):
+    if v[0] == "s":
+        return ["s", f(v[1])]
+    if v[0] == "v":
+        return ["v", [f(x) for x in v[1]]]
+    return [v[0], [[f(x) for x in row] for row in v[1]]]
+
+
+def _map_op(op, f):
+    """the same write with every element value x replaced by f(x) (indices, masks, dtypes untouched)"""
+    k = op[0]
+    if k == "SetElem":
+        return op[:3] + [f(op[3])]
+    if k in ("SetRow", "SetRows", "SetMask"):
+        return [k, op[1], _map_val(op[2], f)]
+    if k in ("SetRowSl", "Set2D"):
+        return [k, op[1], op[2], _map_val(op[3], f)]
+    if k == "Append":
+        return [k, [[f(x) for x in row] for row in op[1]]] + list(op[2:])
+    if k == "AppendFlat":
+        return [k, [f(x) for x in op[1]]] + list(op[2:])
+    raise AssertionError(k)
+
+
+def _dt_obs(rng, rows):
+    full = [i for i, r in enumerate(rows) if r]
+    r = rng.choice(full)
+    n = len(rows)
+    out = [["Starts"], ["Elem", rng.choice([r, r - n]), rng.randint(-len(rows[r]), len(rows[r]) - 1)],
+           ["ColSl"] + _slice(rng, max(map(len, rows))), ["Row", rng.randint(-n, n - 1)], ["Max"], ["Min"]]
+    rng.shuffle(out)
+    return [{"t": "obs", "q": q} for q in out[:rng.randint(1, 3)]]
+
+
+def _stream_dtype(rng, maxitems):
+    """arrays of every element type; appends (RaggedArray / flat-built RaggedArray / list or tuple of typed arrays / nested
+    lists, [] rows included) of rows in another element type, mostly one the array's own type cannot hold; then writes of
+    values the promoted type holds.  Values are exact in the types they are given in, so every view must return them."""
+    base = rng.choice(DTS)
+    n = rng.randint(1, 3)
+    rect = rng.random() < 0.4
+    L = rng.randint(1, 3)
+    rows = [[_dt_pick(rng, base, 0.15) for _ in range(L if rect else rng.randint(1, 4))] for _ in range(n)]
+    q = rng.random()
+    if q < 0.45:
+        init = {"kind": "rows", "rows": rows, "np": True, "dt": base}
+    elif q < 0.85:
+        init = dict(_flat_init(rows, rng.random() < 0.5), dt=base)
+    else:                       # nested Python lists: the element type is the one NumPy infers
+        base = rng.choice(["bool", "int64", "float64"])
+        rows = [[_dt_pick(rng, base, 0.15) for _ in r] for r in rows]
+        if base == "float64":
+            rows[0][0] = 0.5
+        init = {"kind": "rows", "rows": rows, "np": False, "dt": None}
+    tracked = np.dtype(base)
+    items, cur = [], rows
+    nsteps = rng.randint(1, 2 + maxitems // 6)
+    for step in range(nsteps):
+        q = rng.random()
+        has_empty = any(len(r) == 0 for r in cur)
+        if step == 0 or q < 0.5:
+            how = rng.choice(["ra", "raflat", "arrays", "arrays", "tuple", "lists", "lists"])
+            wider = [d for d in DTS if np.result_type(tracked, d) != tracked]
+            dt = rng.choice(wider) if wider and rng.random() < 0.75 else rng.choice(DTS)
+            m = rng.randint(1, 3)
+            vs, dts = [], []
+            for j in range(m):
+                d = dt if how == "raflat" or rng.random() < 0.8 else rng.choice(DTS)
+                if how == "lists":
+                    d = rng.choice(["bool", "int64", "float64"]) if d not in ("bool", "int64", "float64") else d
+                ln = 0 if rng.random() < 0.15 else (L if rect and rng.random() < 0.6 else rng.randint(1, 3))
+                row = [_dt_pick(rng, d, 0.6) for _ in range(ln)]
+                if how == "lists" and d == "float64" and row and all(float(x).is_integer() for x in row):
+                    row[0] = 0.5
+                vs.append(row)
+                dts.append(None if how == "lists" else d)
+            if how in ("ra", "raflat") and not any(vs):
+                vs[0] = [_dt_pick(rng, dts[0] or "int64", 0.6)]
+            op = ["Append", vs, how, dts]
+            cur = _track(items, cur, op)
+            for row, d in zip(vs, dts):
+                if row:
+                    tracked = np.result_type(tracked, d if d else np.array(row).dtype)
+        elif q < 0.56:
+            d = rng.choice(DTS)
+            cur = _track(items, cur, ["AppendFlat", [_dt_pick(rng, d) for _ in range(rng.randint(1, 3))],
+                                     rng.choice([d, None]) if d in ("bool", "int64", "float64") else d])
+        else:
+            # a write of values that the element type reached so far holds exactly
+            pick = lambda _x=None: _dt_pick(rng, tracked.name, 0.5)
+            if has_empty:
+                full = [i for i, r in enumerate(cur) if r]
+                r = rng.choice(full)
+                op = ["SetElem", rng.choice([r, r - len(cur)]), rng.randint(-len(cur[r]), len(cur[r]) - 1), pick()]
+            else:
+                while True:
+                    op = _gen_op(rng, cur, False)
+                    if op[0] in ("SetRow", "SetRows", "SetRowSl", "Set2D", "SetElem", "SetMask"):
+                        break
+                op = _map_op(op, pick)
+            cur = _track(items, cur, op)
+        items += _dt_obs(rng, cur)
+    return {"init": init, "items": items, "stream": "dtype"}
+
+
 def generate(rng, tier):
     ncases = 320 if tier == "quick" else 2600
     maxitems = 12 if tier == "quick" else 40
@@ -640,6 +774,8 @@ def generate(rng, tier):
     for f in (_stream_append, _stream_onerow, _stream_rect):
         for _ in range(nstream):
             cases.append(f(rng, maxitems))
+    for _ in range(140 if tier == "quick" else 1200):
+        cases.append(_stream_dtype(rng, maxitems))
     return cases
 
 
@@ -651,10 +787,42 @@ def _toint(x):
         return "non-scalar:" + str(x)[:40]
 
 
+_NUM = [False]      # dtype stream: element values are read back as exact Python numbers (int or float), never truncated
+
+
+def _tonum(x):
+    if isinstance(x, (bool, np.bool_, int, np.integer)):
+        return int(x)
+    if isinstance(x, (float, np.floating)):
+        return float(x)
+    return "non-scalar:" + str(x)[:40]
+
+
+def _cv(x):
+    """reader of the public read paths (raises on anything that is not a number)"""
+    if not _NUM[0]:
+        return int(x)
+    v = _tonum(x)
+    if isinstance(v, str):
+        raise TypeError(v)
+    return v
+
+
+def _scramble(arr):
+    """in-place change of every element (aliasing probes), whatever the dtype"""
+    if arr.dtype == bool:
+        np.logical_not(arr, out=arr)
+    elif arr.dtype.kind in "iu" and arr.dtype.itemsize < 4:
+        arr += 100
+    else:
+        arr += 1000
+
+
 def _snap(a):
     # robust against a corrupted object (scalars in row slots, arrays in cells): such content is reported, not raised
-    return {"data": [_toint(x) for x in list(a._data)],
-            "arr": [[_toint(x) for x in np.atleast_1d(np.asarray(r, dtype=object))] for r in a._array],
+    sv = _tonum if _NUM[0] else _toint
+    return {"data": [sv(x) for x in list(a._data)],
+            "arr": [[sv(x) for x in np.atleast_1d(np.asarray(r, dtype=object))] for r in a._array],
             "lens": [_toint(x) for x in list(a.lengths)]}
 
 
@@ -682,17 +850,17 @@ def _reads(a):
         except Exception as ex:
             out[name] = {"err": type(ex).__name__ + ": " + str(ex)[:80]}
     n = len(a.lengths)
-    rec("iter", lambda: [[int(x) for x in np.asarray(r).tolist()] for r in a])                    # _array
-    rec("rowslice", lambda: [int(x) for x in a[0:n]._data.tolist()])                               # _array -> ctor
-    rec("flatten", lambda: [int(x) for x in a.flatten().tolist()])                                 # _data
-    rec("elems", lambda: [[int(a[r, c][0]) for c in range(int(a.lengths[r]))] for r in range(n)])  # _data + lengths
+    rec("iter", lambda: [[_cv(x) for x in np.asarray(r).tolist()] for r in a])                    # _array
+    rec("rowslice", lambda: [_cv(x) for x in a[0:n]._data.tolist()])                               # _array -> ctor
+    rec("flatten", lambda: [_cv(x) for x in a.flatten().tolist()])                                 # _data
+    rec("elems", lambda: [[_cv(a[r, c][0]) for c in range(int(a.lengths[r]))] for r in range(n)])  # _data + lengths
     rec("full2d", lambda: _snap(a[:, :]))                                                          # _data + lengths
-    rec("rowreads", lambda: [[int(x) for x in np.asarray(a[r]).tolist()] for r in range(n)])      # _array
-    rec("starts", lambda: [int(x) for x in a.starts.tolist()])
+    rec("rowreads", lambda: [[_cv(x) for x in np.asarray(a[r]).tolist()] for r in range(n)])      # _array
+    rec("starts", lambda: [_cv(x) for x in a.starts.tolist()])
     rec("len", lambda: int(len(a)))
     rec("size", lambda: int(a.size))
-    rec("max", lambda: int(a.max()))
-    rec("min", lambda: int(a.min()))
+    rec("max", lambda: _cv(a.max()))
+    rec("min", lambda: _cv(a.min()))
     return out
 
 
@@ -759,6 +927,29 @@ def _do_op(a, op, RaggedArray):
         cur = a[m]
         a[m] = getattr(cur, BIN[op[2]][1])(op[3])
         return None
+    if k == "Append" and len(op) > 3:
+        # dtype stream: every row in its own dtype (None: what NumPy makes of the Python list)
+        rows, how, dts = op[1], op[2], op[3]
+        typed = [np.array(x, dtype=d) if d else np.array(x) for x, d in zip(rows, dts)]
+        if how == "ra":
+            ra = RaggedArray(typed)
+            a.append(ra)
+            return ra
+        if how == "raflat":
+            ra = RaggedArray(np.concatenate(typed), lengths=[len(x) for x in rows])
+            a.append(ra)
+            return ra
+        if how == "arrays":
+            a.append(typed)
+            return None
+        if how == "tuple":
+            a.append(tuple(typed))
+            return None
+        a.append([list(x) for x in rows])
+        return None
+    if k == "AppendFlat" and len(op) > 2:
+        a.append(np.array(op[1], dtype=op[2]) if op[2] else list(op[1]))
+        return None
     if k == "Append":
         if op[2] == "ra":
             ra = RaggedArray([list(x) for x in op[1]])
@@ -793,19 +984,19 @@ def _do_obs(a, q, RaggedArray):
     if k == "Any":
         return bool(a.any())
     if k == "Max":
-        return int(a.max())
+        return _cv(a.max())
     if k == "Min":
-        return int(a.min())
+        return _cv(a.min())
     if k == "AllCmp":
         return bool(getattr(a, CMP[q[1]][1])(q[2]).all())
     if k == "AnyCmp":
         return bool(getattr(a, CMP[q[1]][1])(q[2]).any())
     if k == "Elem":
-        return int(a[q[1], q[2]][0])
+        return _cv(a[q[1], q[2]][0])
     if k == "Starts":
         return [int(x) for x in a.starts.tolist()]
     if k == "Row":
-        return [int(x) for x in np.asarray(a[q[1]]).tolist()]
+        return [_cv(x) for x in np.asarray(a[q[1]]).tolist()]
     if k == "ColSl":
         return a[:, _pysl(q[1:])]
     raise AssertionError(k)
@@ -815,26 +1006,30 @@ def run_impl(c):
     from enspara.ra.ra import RaggedArray
     init = c["init"]
     out = {"alias": []}
+    _NUM[0] = c.get("stream") == "dtype"
+    dt = init.get("dt")
     # ---- construction (copy=True is the default) and the copy-never-aliases clause
     if init["kind"] == "rows":
-        src = [np.array(r) for r in init["rows"]] if init["np"] else [list(r) for r in init["rows"]]
+        src = [np.array(r, dtype=dt) for r in init["rows"]] if init["np"] else [list(r) for r in init["rows"]]
         a = RaggedArray(src)
         s0 = _snap(a)
         if init["np"]:
             for r in src:
-                r += 1000
+                _scramble(r)
     else:
-        src = np.array(init["data"])
+        src = np.array(init["data"], dtype=dt)
         lens = np.array(init["lens"]) if init["np"] else list(init["lens"])
         a = RaggedArray(src, lengths=lens)
         s0 = _snap(a)
-        src += 1000
+        _scramble(src)
         if init["np"]:
             lens += 7
     if _snap(a) != s0:
         out["alias"].append("constructor(copy=True) aliases the caller's data")
     out["init"] = s0
     out["init_reads"] = _reads(a)
+    if _NUM[0]:
+        out["init_dtype"] = str(a._data.dtype)
     steps = []
     for it in c["items"]:
         before = _snap(a)
@@ -849,13 +1044,15 @@ def run_impl(c):
                 rec["msg"] = type(ex).__name__ + ": " + str(ex)[:120]
             rec.update(_snap(a))
             rec["reads"] = _reads(a)
+            if _NUM[0]:
+                rec["dtype"] = str(a._data.dtype)
             if ra is not None:
                 # the value handed in must not be tied to the array afterwards
                 keep = _snap(a)
-                ra._data += 1000
+                _scramble(ra._data)
                 for r in ra._array:
                     try:
-                        r += 1000
+                        _scramble(r)
                     except Exception:
                         pass
                 if _snap(a) != keep:
@@ -942,6 +1139,11 @@ def oracle(c, r):
         out.append((key, msg))
     for i, (it, rec) in enumerate(zip(c["items"], r["steps"])):
         tag = "item %d %s" % (i, (it.get("op") or it.get("q") or ["selw"])[0])
+        if it["t"] == "op" and "dtype" in rec:
+            prev_dt = ([r.get("init_dtype")] + [x["dtype"] for x in r["steps"][:i] if "dtype" in x])[-1]
+            tag += " %s(_data was %s, is %s)" % (
+                "of rows %s typed %s by %s " % (it["op"][1], it["op"][3], it["op"][2]) if it["op"][0] == "Append" and len(it["op"]) > 3
+                else "", prev_dt, rec["dtype"])
         if it["t"] == "op":
             try:
                 new = shadow_apply(rows, it["op"])
@@ -1163,9 +1365,54 @@ def _err(e):
     return "EIndex" if e == "IndexError" else "EReject"
 
 
+def _fr(x):
+    return F(int(x)) if isinstance(x, (bool, int)) else F(x)
+
+
+def _map_snap(sn, f):
+    return {"data": [f(x) for x in sn["data"]], "arr": [[f(x) for x in row] for row in sn["arr"]], "lens": sn["lens"]}
+
+
+def _scaled(c, r):
+    """dtype stream: writes and reads move values without arithmetic, so the history commutes with multiplying every
+    element value by a constant: the case (and the implementation's answer) times the common denominator of all its
+    values is an integer history, which the model over Z evaluates."""
+    def walk(f):
+        i = c["init"]
+        i2 = dict(i)
+        if i["kind"] == "rows":
+            i2["rows"] = [[f(x) for x in row] for row in i["rows"]]
+        else:
+            i2["data"] = [f(x) for x in i["data"]]
+        c2 = {"init": i2, "items": [dict(it, op=_map_op(it["op"], f)) if it["t"] == "op" else it for it in c["items"]]}
+        if r is None:
+            return c2, None
+        r2 = {"init": _map_snap(r["init"], f), "steps": []}
+        for it, rec in zip(c["items"], r["steps"]):
+            rec2 = dict(rec)
+            if it["t"] == "op":
+                rec2.update(_map_snap(rec, f))
+            elif "ra" in rec:
+                rec2["ra"] = _map_snap(rec["ra"], f)
+            elif "val" in rec and it["q"][0] in ("Elem", "Max", "Min"):
+                rec2["val"] = f(rec["val"])
+            elif "val" in rec and it["q"][0] == "Row":
+                rec2["val"] = [f(x) for x in rec["val"]]
+            r2["steps"].append(rec2)
+        return c2, r2
+    seen = []
+    walk(lambda x: seen.append(_fr(x)) or x)
+    D = 1
+    for x in seen:
+        D = D * x.denominator // gcd(D, x.denominator)
+    return walk(lambda x: int(_fr(x) * D))
+
+
 def coq_check(c, r):
     if "steps" not in r:
         return None
+    if c.get("stream") == "dtype":
+        c, r = _scaled(c, r)
     exp = ["(VRA %s)" % _slots(r["init"])]
     for it, rec in zip(c["items"], r["steps"]):
         if it["t"] == "selw":
@@ -1188,6 +1435,8 @@ def coq_check(c, r):
 
 
 def coq_show(c):
+    if c.get("stream") == "dtype":
+        c = _scaled(c, None)[0]
     return "full_trace %s %s" % (_init(c), _items(c))
 
 
@@ -1208,6 +1457,54 @@ def nontrivial(c, r):
     return nrows >= 2 and len(ok) >= 3 and any(k in ROUTE_A for k in ok) and any(k in ROUTE_B for k in ok)
 
 
+def _kind(d):
+    return {"b": "bool", "u": "int", "i": "int", "f": "float", "O": "object"}.get(np.dtype(d).kind, "other")
+
+
+def _dtype_tags(c, r):
+    """what the dtype stream exercised; `widen` = an append of values the array's element type (as the list-of-rows model
+    tracks it: NumPy's promotion of everything put in so far) does not hold"""
+    t = set()
+    if "steps" not in r or "init_dtype" not in r:
+        return t
+    cur = np.dtype(r["init_dtype"])
+    t.add("dt-start-" + cur.name)
+    widened = False
+    for it, rec in zip(c["items"], r["steps"]):
+        if it["t"] != "op" or rec.get("e") is not None:
+            continue
+        op = it["op"]
+        if op[0] == "Append":
+            t.add("dt-append-" + op[2])
+            if any(len(x) == 0 for x in op[1]):
+                t.add("dt-append-emptyrow")
+                if op[2] == "lists":
+                    t.add("dt-append-emptylist")
+            for row, d in zip(op[1], op[3]):
+                if not row:
+                    continue
+                d = np.dtype(d) if d else np.array(row).dtype
+                new = np.result_type(cur, d) if cur.kind != "O" else cur
+                if new != cur:
+                    widened = True
+                    t.add("dt-widen-%s-%s" % (_kind(cur), _kind(d)))
+                    if cur.kind in "iu" and d.kind in "iu":
+                        t.add("dt-widen-int-int-%s" % ("beyond-int32" if any(abs(x) >= 2 ** 31 for x in row) else "small"))
+                    if cur.kind in "iu" and d.kind == "f" and any(not float(x).is_integer() for x in row):
+                        t.add("dt-widen-int-float-nonintegral")
+                    if cur.name == "float32" and d.name == "float64" and any(float(np.float32(x)) != x for x in row):
+                        t.add("dt-widen-float32-float64-inexact")
+                elif d != cur:
+                    t.add("dt-append-narrower")
+                cur = new
+        elif widened:
+            t.add("dt-write-after-widening")
+            t.add("dt-write-after-widening-" + op[0])
+        if rec.get("dtype") == "object":
+            t.add("dt-data-object")
+    return t
+
+
 def tags(c, r):
     t = set()
     i = c["init"]
@@ -1216,6 +1513,8 @@ def tags(c, r):
     t.add("ctor-" + i["kind"] + ("-np" if i["np"] else ""))
     if c.get("stream"):
         t.add("stream-" + c["stream"])
+    if c.get("stream") == "dtype":
+        t |= _dtype_tags(c, r)
     if len(lens) == 1 and i["kind"] == "rows" and i["np"]:
         t.add("start-onerow-ndarray")
     listbuilt_rect = len(lens) > 1 and len(set(lens)) == 1 and not i["np"]
@@ -1273,4 +1572,9 @@ ESSENTIAL_TAGS = ["start-rect", "start-ragged", "ctor-rows", "ctor-flat", "ctor-
                   "obs-Cmp", "obs-Bin", "obs-BinRA", "obs-NotCmp", "obs-Max", "obs-All",
                   "obs-Starts", "obs-Row", "obs-ColSl", "stream-append", "stream-onerow", "stream-rect",
                   "hist-Starts-append-Starts", "hist-Elem-append-Elem", "hist-ColSl-append-ColSl", "write-after-append",
-                  "start-onerow-ndarray", "selw-sl", "selw-li", "selw-of-onerow", "rect-listbuilt-2dslice-rowread"]
+                  "start-onerow-ndarray", "selw-sl", "selw-li", "selw-of-onerow", "rect-listbuilt-2dslice-rowread",
+                  "stream-dtype", "dt-append-ra", "dt-append-raflat", "dt-append-arrays", "dt-append-tuple", "dt-append-lists",
+                  "dt-append-emptyrow", "dt-append-emptylist", "dt-append-narrower",
+                  "dt-widen-int-float", "dt-widen-int-float-nonintegral", "dt-widen-int-int", "dt-widen-int-int-beyond-int32",
+                  "dt-widen-float-float", "dt-widen-float32-float64-inexact", "dt-widen-bool-int", "dt-widen-bool-float",
+                  "dt-write-after-widening"] + ["dt-start-" + d for d in DTS]
